@@ -9,7 +9,7 @@ Theorem C15_sorted_output_order_independent :
   (forall (A : Type) (key : A -> str) (l1 l2 : list A),
           Permutation.Permutation l1 l2 -> NoDup (map key l1) -> sort_by key l1 = sort_by key l2) /\
          (forall l1 l2 : list str, Permutation.Permutation l1 l2 -> sort_strs l1 = sort_strs l2).
-Proof. exact C15_sort_permutation_invariant. Qed.
+Proof. exact @C15_sort_permutation_invariant. Qed.
 Print Assumptions C15_sorted_output_order_independent.
 
 Theorem C15_sort_is_sorted_permutation :
@@ -17,7 +17,7 @@ Theorem C15_sort_is_sorted_permutation :
          Sorted.StronglySorted (fun x y : A => str_ltb (key y) (key x) = false) (sort_by key l) /\
          Sorted.Sorted (fun x y : A => str_ltb (key y) (key x) = false) (sort_by key l) /\
          Permutation.Permutation (sort_by key l) l.
-Proof. exact sort_by_sorted. Qed.
+Proof. exact @sort_by_sorted. Qed.
 Print Assumptions C15_sort_is_sorted_permutation.
 
 Theorem C15_completion_sorted :
@@ -25,6 +25,125 @@ Theorem C15_completion_sorted :
          Sorted.StronglySorted (fun x y : str * str => str_ltb (fst y) (fst x) = false)
            (complete cfg root args) /\
          Sorted.Sorted (fun x y : str * str => str_ltb (fst y) (fst x) = false) (complete cfg root args).
-Proof. exact C18_sorted. Qed.
+Proof. exact @C18_sorted. Qed.
 Print Assumptions C15_completion_sorted.
+
+(* ---- added by bin/mkprops (batch 2) ---- *)
+From GoFlags Require Import Base.Str Base.Utf8 Golib.Strings Golib.Strconv Model.Types Model.Tag Model.Scan Model.Lookup Model.Convert Model.State Model.Closest Model.Help Model.Parse Model.Ini Model.Complete.
+From GoFlags Require Import Proofs.DetSpec.
+
+(* the text of a map value does not depend on the order in which the runtime enumerates its entries *)
+Theorem C15_map_text_independent_of_entry_order :
+  forall (orc : oracles) (base : str) (k vk : kind) (n n' : bool) (l l' : list (value * value)),
+         Permutation.Permutation l l' ->
+         entries_render orc base k vk l ->
+         convert_to_string orc base (TMap k vk) (VMap n l) =
+         convert_to_string orc base (TMap k vk) (VMap n' l').
+Proof. exact @C15_map_text_order_independent. Qed.
+Print Assumptions C15_map_text_independent_of_entry_order.
+
+Theorem C15_help_default_independent_of_entry_order :
+  forall (orc : oracles) (oc : octx) (r r' : rt) (k vk : kind) (n : bool) (l l' : list (value * value)),
+         o_ty (oc_opt oc) = TMap k vk ->
+         rt_vals r (o_fid (oc_opt oc)) = VMap n l ->
+         rt_vals r' (o_fid (oc_opt oc)) = VMap n l' ->
+         Permutation.Permutation l l' ->
+         entries_render orc (o_base (oc_opt oc)) k vk l ->
+         exists d : str,
+           opt_update_default_literal orc oc r =
+           Ok (set_fl r (o_fid (oc_opt oc)) (with_deflit (rt_fl r (o_fid (oc_opt oc))) d)) /\
+           opt_update_default_literal orc oc r' =
+           Ok (set_fl r' (o_fid (oc_opt oc)) (with_deflit (rt_fl r' (o_fid (oc_opt oc))) d)).
+Proof. exact @C15_default_literal_order_independent. Qed.
+Print Assumptions C15_help_default_independent_of_entry_order.
+
+Theorem C15_ini_option_text_independent_of_entry_order :
+  forall (orc : oracles) (include_defaults comment_defaults include_comments : bool) 
+           (o : opt) (r r' : rt) (k vk : kind) (n : bool) (l l' : list (value * value)),
+         o_ty o = TMap k vk ->
+         rt_fl r (o_fid o) = rt_fl r' (o_fid o) ->
+         rt_vals r (o_fid o) = VMap n l ->
+         rt_vals r' (o_fid o) = VMap n l' ->
+         Permutation.Permutation l l' ->
+         entries_render orc (o_base o) k vk l ->
+         distinct_ini_keys orc (o_base o) k l ->
+         write_opt orc include_defaults comment_defaults include_comments o r =
+         write_opt orc include_defaults comment_defaults include_comments o r'.
+Proof. exact @C15_write_opt_map_order_independent. Qed.
+Print Assumptions C15_ini_option_text_independent_of_entry_order.
+
+(* the whole INI output is the same for two states that differ only in the enumeration order of map values *)
+Theorem C15_ini_output_independent_of_entry_order :
+  forall (orc : oracles) (include_defaults comment_defaults include_comments : bool) 
+           (root : command) (r r' : rt),
+         rt_perm_eq orc root r r' ->
+         write_ini orc include_defaults comment_defaults include_comments root r =
+         write_ini orc include_defaults comment_defaults include_comments root r'.
+Proof. exact @C15_write_ini_map_order_independent. Qed.
+Print Assumptions C15_ini_output_independent_of_entry_order.
+
+Theorem C15_map_equality_independent_of_entry_order :
+  forall (na nb : bool) (la la' lb lb' : list (value * value)),
+         Permutation.Permutation la la' ->
+         Permutation.Permutation lb lb' -> veq (VMap na la) (VMap nb lb) = veq (VMap na la') (VMap nb lb').
+Proof. exact @C15_value_equality_order_independent. Qed.
+Print Assumptions C15_map_equality_independent_of_entry_order.
+
+Theorem C15_map_equality_spec :
+  forall (na nb : bool) (la lb : list (value * value)),
+         veq (VMap na la) (VMap nb lb) = true <->
+         na = nb /\
+         Datatypes.length la = Datatypes.length lb /\
+         (forall ka va : value,
+          In (ka, va) la ->
+          exists kb vb : value, In (kb, vb) lb /\ value_eqb 7 ka kb = true /\ value_eqb 7 va vb = true).
+Proof. exact @veq_map_spec. Qed.
+Print Assumptions C15_map_equality_spec.
+
+Theorem C15_is_default_independent_of_entry_order :
+  forall (orc : oracles) (o : opt) (r r' : rt) (n : bool) (l l' : list (value * value)),
+         rt_vals r (o_fid o) = VMap n l ->
+         rt_vals r' (o_fid o) = VMap n l' ->
+         Permutation.Permutation l l' -> opt_value_is_default orc o r = opt_value_is_default orc o r'.
+Proof. exact @C15_value_is_default_order_independent. Qed.
+Print Assumptions C15_is_default_independent_of_entry_order.
+
+Theorem C15_lookup_independent_of_iteration_order :
+  forall (A : Type) (l l' : list (str * A)) (k : str), same_map l l' -> find_last l k = find_last l' k.
+Proof. exact @C15_find_last_order_independent. Qed.
+Print Assumptions C15_lookup_independent_of_iteration_order.
+
+(* completion output does not depend on the iteration order of the lookup maps *)
+Theorem C15_completion_independent_of_lookup_order :
+  forall (lk lk' : lookup) (prefix m : str) (short : bool),
+         same_map (lk_long lk) (lk_long lk') ->
+         same_map (lk_short lk) (lk_short lk') ->
+         short_keys_one_rune lk ->
+         long_keys_nonempty lk ->
+         sort_by (fun it : str * str => fst it) (complete_option_names lk prefix m short) =
+         sort_by (fun it : str * str => fst it) (complete_option_names lk' prefix m short).
+Proof. exact @C15_completion_lookup_order_independent_keys. Qed.
+Print Assumptions C15_completion_independent_of_lookup_order.
+
+Theorem C15_completion_items_distinct :
+  forall (delim : str) (root : command) (path : list nat) (prefix m : str) (short : bool),
+         NoDup (map fst (complete_option_names (make_lookup delim root path) prefix m short)).
+Proof. exact @C15_completion_make_lookup_texts_distinct. Qed.
+Print Assumptions C15_completion_items_distinct.
+
+Theorem C15_command_completion_independent_of_order :
+  forall (c c' : command) (m : str),
+         Permutation.Permutation (cmd_subs c) (cmd_subs c') ->
+         NoDup (map fst (complete_commands c m)) ->
+         sort_by (fun it : str * str => fst it) (complete_commands c m) =
+         sort_by (fun it : str * str => fst it) (complete_commands c' m).
+Proof. exact @C15_completion_commands_order_independent. Qed.
+Print Assumptions C15_command_completion_independent_of_order.
+
+Theorem C15_unknown_command_message_independent_of_order :
+  forall (root : command) (s : pst) (root' : command) (s' : pst),
+         Permutation.Permutation (cmd_subs (cur_cmd root s)) (cmd_subs (cur_cmd root' s')) ->
+         ps_ret s = ps_ret s' -> estimate_command root s = estimate_command root' s'.
+Proof. exact @C15_unknown_command_message_order_independent. Qed.
+Print Assumptions C15_unknown_command_message_independent_of_order.
 
